@@ -721,9 +721,10 @@ class StrTr:
     `.lower()`, `.split(".")`, `".".join(xs)`, `xs[0]`, `xs[-1]`, `xs[:-1]`, `[e.lower() for e in xs]`, and
     `A if A else B` where `A` is the *optional* bound expression (None / "" are falsy)."""
 
-    def __init__(self, binds: dict[str, str], optional: dict[str, str] | None = None):
+    def __init__(self, binds: dict[str, str], optional: dict[str, str] | None = None, consts: dict[str, str] | None = None):
         self.binds = dict(binds)          # source text -> Lean term of type Str
         self.optional = dict(optional or {})   # source text -> Lean term of type Option Str
+        self.consts = dict(consts or {})  # module-level NAME = "text" constants
         self.locals: dict[str, tuple[str, str]] = {}   # python local -> (lean term, "str" | "list")
 
     def expr(self, node: ast.AST) -> tuple[str, str]:
@@ -733,6 +734,8 @@ class StrTr:
         if isinstance(node, ast.Name):
             if node.id in self.locals:
                 return self.locals[node.id]
+            if node.id in self.consts:
+                return f"({cps(self.consts[node.id])} : Config.Str)", "str"
             raise Untranslatable(f"unbound name `{node.id}`")
         if isinstance(node, ast.Constant) and isinstance(node.value, str):
             return f"({cps(node.value)} : Config.Str)", "str"
@@ -785,7 +788,7 @@ class StrTr:
             if sl == ":-1":
                 return f"(({a}).dropLast)", "list"
             raise Untranslatable(f"unsupported subscript `{text}`")
-        if isinstance(node, ast.ListComp) and len(node.generators) == 1 and not node.generators[0].ifs \
+        if isinstance(node, (ast.ListComp, ast.GeneratorExp)) and len(node.generators) == 1 and not node.generators[0].ifs \
                 and isinstance(node.generators[0].target, ast.Name):
             g = node.generators[0]
             xs, tx = self.expr(g.iter)
@@ -803,6 +806,13 @@ class StrTr:
             if te != "str":
                 raise Untranslatable("comprehension element is not a string")
             return f"(({xs}).map fun x__ => {e})", "list"
+        if isinstance(node, ast.BoolOp) and isinstance(node.op, ast.Or) and len(node.values) == 2 \
+                and ast.unparse(node.values[0]) in self.optional:
+            # `A or B` with A the optional value: the same decision as `A if A else B`
+            b, tb = self.expr(node.values[1])
+            if tb != "str":
+                raise Untranslatable("right operand of `or` is not a string")
+            return f"(match {self.optional[ast.unparse(node.values[0])]} with | some e__ => e__ | none => {b})", "str"
         if isinstance(node, ast.IfExp):
             ttext = ast.unparse(node.test)
             if ttext in self.optional and ast.unparse(node.body) == ttext:
@@ -843,7 +853,13 @@ class StrTr:
         """straight-line assignments / `+=` to names; everything else is skipped"""
         for st in stmts:
             try:
-                if isinstance(st, ast.Assign) and len(st.targets) == 1 and isinstance(st.targets[0], (ast.Tuple, ast.List)):
+                if isinstance(st, ast.Assign) and len(st.targets) == 1 and isinstance(st.targets[0], (ast.Tuple, ast.List)) \
+                        and isinstance(st.value, (ast.Tuple, ast.List)) and len(st.value.elts) == len(st.targets[0].elts) \
+                        and all(isinstance(t, ast.Name) for t in st.targets[0].elts):
+                    vals = [self.expr(v) for v in st.value.elts]      # a, b = x, y: right-hand sides first
+                    for t, v in zip(st.targets[0].elts, vals):
+                        self.locals[t.id] = v
+                elif isinstance(st, ast.Assign) and len(st.targets) == 1 and isinstance(st.targets[0], (ast.Tuple, ast.List)):
                     self._unpack(st.targets[0], st.value)
                 elif isinstance(st, ast.Assign) and len(st.targets) == 1 and isinstance(st.targets[0], ast.Name):
                     self.locals[st.targets[0].id] = self.expr(st.value)
@@ -881,6 +897,17 @@ def _file_tree(rel: str) -> ast.Module:
             warnings.simplefilter("ignore")
             _TREES[rel] = ast.parse((REPO / rel).read_text())
     return _TREES[rel]
+
+
+def module_string_constants(tree: ast.Module) -> dict[str, str]:
+    """module-level `NAME = "text"` bindings that are assigned exactly once"""
+    seen: dict[str, list] = {}
+    for st in tree.body:
+        if isinstance(st, ast.Assign) and len(st.targets) == 1 and isinstance(st.targets[0], ast.Name):
+            seen.setdefault(st.targets[0].id, []).append(st.value)
+        elif isinstance(st, ast.AnnAssign) and isinstance(st.target, ast.Name) and st.value is not None:
+            seen.setdefault(st.target.id, []).append(st.value)
+    return {n: v[0].value for n, v in seen.items() if len(v) == 1 and isinstance(v[0], ast.Constant) and isinstance(v[0].value, str)}
 
 
 def resolver_helpers(tree: ast.Module, callee: str = "str_to_class") -> dict[str, tuple[int, int, list[str]]]:
@@ -946,12 +973,13 @@ def _str_to_class_target(params: list[str], binds: dict[str, str], optional: dic
     """kernel = the (module, attribute) pair handed to the first `str_to_class(...)` call of the function"""
 
     def build(k: Kernel, fn: ast.FunctionDef) -> str:
-        tr = StrTr(binds, optional)
-        call = None
         try:
             helpers = resolver_helpers(_file_tree(k.file), callee)
+            consts = module_string_constants(_file_tree(k.file))
         except (OSError, SyntaxError):
-            helpers = {}
+            helpers, consts = {}, {}
+        tr = StrTr(binds, optional, consts)
+        call = None
         flat = list(_walk_stmts(fn.body))
         for i, st in enumerate(flat):
             for node in ast.walk(st) if not isinstance(st, (ast.If, ast.For, ast.Try, ast.With, ast.While)) else []:
@@ -1020,6 +1048,9 @@ def _merge_steps(k: Kernel, fn: ast.FunctionDef) -> str:
         return None
 
     def membership(test, loop_var) -> list[str] | None:
+        if isinstance(test, ast.BoolOp) and isinstance(test.op, ast.Or):
+            parts = [membership(v, loop_var) for v in test.values]
+            return None if any(p is None for p in parts) else [x for p in parts for x in p]
         if loop_var and isinstance(test, ast.Compare) and len(test.ops) == 1 and isinstance(test.ops[0], ast.In) \
                 and isinstance(test.left, ast.Name) and test.left.id == loop_var:
             return key_list(test.comparators[0])
